@@ -1492,3 +1492,35 @@ def gen_tolist():
 
 
 GENERATORS = GENERATORS + (('Tolist', gen_tolist),)
+
+
+# ---------------------------------------------------------------------------------------------------------------------
+
+def gen_extremes():
+    """`Lattice.infimum`, `supremum`, `atoms`: which position / attribute they return."""
+    tree = _src('lattices.py')
+    pos = {}
+    for name in ('infimum', 'supremum'):
+        b = _nodoc(_method(tree, 'Lattice', name).body)
+        if not (len(b) == 1 and isinstance(b[0], ast.Return) and isinstance(b[0].value, ast.Subscript)
+                and ast.unparse(b[0].value.value) == 'self._concepts'):
+            raise Decline('Lattice.%s changed' % name)
+        try:
+            pos[name] = int(ast.literal_eval(b[0].value.slice))
+        except Exception:
+            raise Decline('Lattice.%s: index %s' % (name, ast.unparse(b[0].value.slice)))
+    b = [ast.unparse(s) for s in _nodoc(_method(tree, 'Lattice', 'atoms').body)]
+    import re
+    mt = re.fullmatch(r'return self\.(\w+)\.(\w+)', b[0]) if len(b) == 1 else None
+    if not mt:
+        raise Decline('Lattice.atoms changed: %r' % b)
+    return '\n'.join([
+        '/- GENERATED by harness/extract2.py from the properties of class Lattice in concepts/lattices.py — do not edit.',
+        '   Python list positions (negative = from the end); atoms = (which extreme, which attribute of it). -/',
+        'namespace FCA.Generated', '',
+        'def infimum_pos : Int := %d' % pos['infimum'],
+        'def supremum_pos : Int := %d' % pos['supremum'],
+        'def atoms_cfg : String × String := ("%s", "%s")' % (mt.group(1), mt.group(2)), '', 'end FCA.Generated', ''])
+
+
+GENERATORS = GENERATORS + (('Extremes', gen_extremes),)
